@@ -48,6 +48,10 @@ func vfC05Errors() []vfC05Err {
 		{name: "panic-error", pv: errors.New("boom error"), want: []string{"RuntimeError"}, msgHas: "boom error"},
 		{name: "panic-int", pv: 42, want: []string{"RuntimeError"}, msgHas: "42"},
 		{name: "panic-struct", pv: struct{ A int }{7}, want: []string{"RuntimeError"}, msgHas: "7"},
+		// an RpcError that already carries a traceback (e.g. relayed from an upstream service by a gateway)
+		{name: "rpc-with-traceback", mk: func() error {
+			return &RpcError{Type: "ValueError", Message: "relayed", Traceback: "Traceback (most recent call last): upstream/secret/path.py line 7"}
+		}, want: []string{"ValueError"}, msgHas: "relayed"},
 		// a panic is a RuntimeError whatever its value is — also when the value happens to be a typed error
 		{name: "panic-rpcerror", pv: &RpcError{Type: "ValueError", Message: "panicked rpc", Kind: "k9"}, want: []string{"RuntimeError"}, kind: "", msgHas: "panicked rpc"},
 		{name: "panic-framework-error", pv: &SessionLostError{Reason: "panicked lost"}, want: []string{"RuntimeError"}, kind: "", msgHas: "panicked lost"},
